@@ -855,6 +855,22 @@ def comprehension(engine, st, node, kind):
                 out = Ty.havoc(Ty.List(val.t), f"filtered@{engine.line(node)}")
                 m, n = out.c[0], it.length
                 tag = f"{node.lineno}.{node.col_offset}!{engine.new_id()}"
+                # name the source columns (they may be computed arrays): their elements key the instantiations
+                named = []
+                for ci_, c in enumerate(val.c):
+                    nm = z3.Const(f"flt!src!{tag}!{ci_}", z3.ArraySort(Ty.IntS, c.sort()))
+                    outer.assume(z3.ForAll([q], nm[q] == c))
+                    named.append(nm[q])
+                    base_ = getattr(it, "base", None)
+                    if ci_ == 0 and len(val.c) == 1 and base_ is not None and isinstance(base_.py, tuple) and base_.py[0] == "chain" and c.eq(base_.c[1][q]):
+                        # a concatenation: tie the named source to each piece, keyed on the piece's own elements
+                        off = z3.IntVal(0)
+                        for piece in base_.py[1]:
+                            pa = piece.c[1]
+                            if z3.is_const(pa) or (z3.is_app(pa) and pa.decl().kind() == z3.Z3_OP_UNINTERPRETED) or (z3.is_app(pa) and pa.decl().kind() == z3.Z3_OP_SELECT):
+                                outer.assume(z3.ForAll([q], z3.Implies(z3.And(0 <= q, q < piece.c[0]), nm[off + q] == pa[q]), patterns=[pa[q]]))
+                            off = off + piece.c[0]
+                val = V(val.t, named)
                 idx = z3.Function(f"flt!idx!{tag}", Ty.IntS, Ty.IntS)
                 inv = z3.Function(f"flt!inv!{tag}", Ty.IntS, Ty.IntS)
                 a_, b_ = z3.Ints("flt!a flt!b")
@@ -863,9 +879,12 @@ def comprehension(engine, st, node, kind):
                 outer.assume(z3.And(0 <= m, m <= n))
                 outer.assume(z3.ForAll([a_], z3.Implies(z3.And(0 <= a_, a_ < m), z3.And(
                     0 <= idx(a_), idx(a_) < n, sub(cnd, idx(a_)), inv(idx(a_)) == a_,
-                    *[arr[a_] == sub(c, idx(a_)) for arr, c in zip(out.c[1:], val.c)])), patterns=[idx(a_)]))
+                    *[arr[a_] == sub(c, idx(a_)) for arr, c in zip(out.c[1:], val.c)])), patterns=[out.c[1][a_]] if len(out.c) > 1 else [idx(a_)]))
                 outer.assume(z3.ForAll([a_, b_], z3.Implies(z3.And(0 <= a_, a_ < b_, b_ < m), idx(a_) < idx(b_))))
-                outer.assume(z3.ForAll([q], z3.Implies(z3.And(0 <= q, q < n, cnd), z3.And(0 <= inv(q), inv(q) < m, idx(inv(q)) == q)), patterns=[inv(q)]))
+                src_pat = val.c[0] if (val.c and z3.is_app(val.c[0]) and val.c[0].decl().kind() == z3.Z3_OP_SELECT) else None
+                outer.assume(z3.ForAll([q], z3.Implies(z3.And(0 <= q, q < n, cnd), z3.And(0 <= inv(q), inv(q) < m, idx(inv(q)) == q,
+                                                                                            *[arr[inv(q)] == c for arr, c in zip(out.c[1:], val.c)])),
+                                       patterns=[src_pat] if src_pat is not None else [inv(q)]))
                 return engine.alloc(outer, out)
             if kind in ("list", "gen"):
                 val = engine.unbox_value(st, engine.eval(st, node.elt))
